@@ -169,7 +169,11 @@ class Module:
         """module.c + all query entry functions + runtime -> one goto binary (parsed once, queried many times)."""
         t0 = time.time()
         mains = os.path.join(self.outdir, 'mains.c')
-        pre = '#include "vp_rt.h"\nextern int vp_pre_enabled, vp_pre_k, vp_pre_count, vp_pre_ran, vp_spurious_cfg, vp_spurious_at, vp_timeout_at;\nvoid vp_run_pending_unit(void);\n'
+        if preempt and 'void vp_unit_run(int' not in mains_text:
+            mains_text = 'void vp_unit_run(int u) {}\n' + mains_text
+        if preempt and 'void vp_unit_b(void)' not in mains_text:
+            mains_text = 'void vp_unit_b(void) {}\n' + mains_text
+        pre = '#include "vp_rt.h"\nextern int vp_pre_enabled, vp_pre_k, vp_pre_count, vp_pre_ran, vp_spurious_cfg, vp_spurious_at, vp_timeout_at;\nextern int vp2_enabled, vp2_nunits, vp2_u_ctx[4], vp2_u_k[4], vp2_u_ran[4], vp2_cnt[5];\nvoid vp2_run_rest(void); void vp_thread_body(uint32_t);\nvoid vp_run_pending_unit(void);\n'
         open(mains, 'w').write(pre + mains_text)
         arena = (self.info['globals_end'] + 63) // 64 * 64
         need = arena + nthreads * (heap + stack)
